@@ -112,25 +112,29 @@ SeenRound(d, perm, seed, gaps, zz) ==
        \o (IF Len(perm) > 1 THEN <<<<"T", Head(gaps)>>>> ELSE <<>>) \o SeenRound(d, Tail(perm), seed, Tail(gaps), zz)
 Perms(n) == {p \in [1..n -> 1..n] : \A a, b \in 1..n : a # b => p[a] # p[b]}
 GapSeqs(n, G) == [1..n -> G]
-ChainTraces(d) ==
+ChainTraces(d, pk) ==      \* pk = number of the first-round arrival order (shards the trace set)
   LET n == NParts(d)
+      ps == SetToSeq(Perms(n))
       zz == EffZzs(d)[1]
       G2 == IF Thorough THEN Gaps ELSE {0, 16}
       P2 == IF Thorough \/ n = 2 THEN Perms(n) ELSE {[i \in 1..n |-> i], [i \in 1..n |-> n + 1 - i]}
       G0 == IF Thorough THEN Gaps ELSE {1, 50}
-  IN {SeenRound(d, p1, 1, g1, zz) \o <<<<"T", g0>>>> \o SeenRound(d, p2, 2, g2, zz) :
-        p1 \in Perms(n), g1 \in GapSeqs(n - 1, Gaps), g0 \in G0, p2 \in P2, g2 \in GapSeqs(n - 1, G2)}
-     \cup {ActiveRound(d, 1, 1, g1, ANY) \o <<<<"T", g0>>>> \o ActiveRound(d, 1, 2, g2, ANY) \o <<<<"T", g0>>>>
+  IN (IF pk > Len(ps) THEN {} ELSE
+      {SeenRound(d, ps[pk], 1, g1, zz) \o <<<<"T", g0>>>> \o SeenRound(d, p2, 2, g2, zz) :
+        g1 \in GapSeqs(n - 1, Gaps), g0 \in G0, p2 \in P2, g2 \in GapSeqs(n - 1, G2)})
+     \cup (IF pk # 1 THEN {} ELSE
+         {ActiveRound(d, 1, 1, g1, ANY) \o <<<<"T", g0>>>> \o ActiveRound(d, 1, 2, g2, ANY) \o <<<<"T", g0>>>>
            \o SeenRound(d, p2, 3, g2, zz) :
         g1 \in GapSeqs(n - 1, Gaps), g0 \in G0, g2 \in GapSeqs(n - 1, G2), p2 \in P2}
      \cup {SeenRound(d, p1, 1, [j \in 1..(n - 1) |-> IF j = at THEN x ELSE 0], zz) \o <<<<"T", 100>>>>     \* the edge of the window
            \o SeenRound(d, p1, 2, [j \in 1..(n - 1) |-> IF j = at THEN x + 1 ELSE 0], zz) :
-        p1 \in Perms(n), at \in 1..(n - 1), x \in {PartWindow * n - 1, PartWindow * n}}
+        p1 \in Perms(n), at \in 1..(n - 1), x \in {PartWindow * n - 1, PartWindow * n}})
 (* every chained shape gets the active flow and a few arrival orders; one representative shape per kind gets all of them *)
 FullTraceDef(d) == /\ d.zzs = <<8>> /\ d.dfl.on = 0 /\ d.fields[1].ty = "UCH"
                    /\ (d.chain[1].len = 2 \/ (d.chain[1].len = -1 /\ NParts(d) = 2))
-ChainCases(dir) ==
-  UNION {IF dir = "r" /\ FullTraceDef(d) THEN {[def |-> d, ops |-> <<<<"M", 0>>>> \o t] : t \in ChainTraces(d)}
+ChainCases(dir, pk) ==
+  UNION {IF dir = "r" /\ FullTraceDef(d) THEN {[def |-> d, ops |-> <<<<"M", 0>>>> \o t] : t \in ChainTraces(d, pk)}
+         ELSE IF pk # 1 THEN {}
          ELSE LET n == NParts(d)
                   zz == EffZzs(d)[1]
                   id == [i \in 1..n |-> i]
@@ -143,12 +147,12 @@ ChainCases(dir) ==
          : d \in CDefs(dir)}
 
 (* ---- shards ---- *)
-ShardNames == {<<"plain", 0>>, <<"bound", 0>>, <<"chainr", 0>>, <<"chainw", 0>>}
+ShardNames == {<<"plain", 0>>, <<"bound", 0>>, <<"chainw", 0>>} \cup {<<"chainr", pk>> : pk \in 1..6}
 ShardCases(s) ==
   CASE s[1] = "plain"  -> {NCase(d) : d \in NDefs}
     [] s[1] = "bound"  -> {NCase(d) : d \in BoundaryDefs}
-    [] s[1] = "chainr" -> ChainCases("r")
-    [] s[1] = "chainw" -> ChainCases("w")
+    [] s[1] = "chainr" -> ChainCases("r", s[2])
+    [] s[1] = "chainw" -> ChainCases("w", 1)
 FileOf(s) == OutDir \o "/" \o s[1] \o ToString(s[2]) \o ".ndjson"
 WriteShard(s) ==
   LET cs == SetToSeq(ShardCases(s))
